@@ -36,6 +36,22 @@ type env struct {
 	dl   *dynState
 }
 
+var slDeep uint64
+
+// slKeep: the quick tier keeps everything; the thorough tier keeps every history shorter than 4, one in 4 of length
+// 4 and 5, one in 16 of the longer ones.
+func slKeep(thorough bool, seed uint64, n int) bool {
+	if !thorough || n < 4 {
+		return true
+	}
+	slDeep++
+	stride := uint64(4)
+	if n >= 6 {
+		stride = 16
+	}
+	return (slDeep+seed)%stride == 0
+}
+
 func main() { hx.Main("C19", run) }
 
 func run(r *hx.Run) error {
@@ -392,8 +408,13 @@ func genSimpleList(e *env, rng *gen.Rng) {
 	}
 	var rec func(n, h int, alpha []string, seq []string, depth int)
 	rec = func(n, h int, alpha []string, seq []string, depth int) {
-		emit(n, h, seq)
-		r.Count(fmt.Sprintf("sl-exhaustive-len%d", len(seq)))
+		// Case cap of the thorough tier (it is also the search the check falls back to): histories of length >= 4 are
+		// sub-sampled with a stride whose phase is the seed, so that a run stays near 3 M lines (the check keeps every
+		// mismatching line in memory) while different seeds visit different histories.
+		if slKeep(r.Thorough, r.Seed, len(seq)) {
+			emit(n, h, seq)
+			r.Count(fmt.Sprintf("sl-exhaustive-len%d", len(seq)))
+		}
 		if depth == 0 {
 			return
 		}
@@ -429,7 +450,7 @@ func genSimpleList(e *env, rng *gen.Rng) {
 	// random long histories
 	cases := 1500
 	if r.Thorough {
-		cases = 20000
+		cases = 10000
 	}
 	for c := 0; c < cases; c++ {
 		n := rng.Range(0, 40)
@@ -498,7 +519,7 @@ func genPager(e *env, rng *gen.Rng) {
 	// random texts and op sequences
 	cases := 2000
 	if r.Thorough {
-		cases = 30000
+		cases = 15000
 	}
 	randText := func() []string {
 		nseg := 1
